@@ -22,13 +22,24 @@ func runC16(f *hx.Flags) {
 	impl, pat, file := newImpl()
 	r := hx.NewRunner(f, "h-tmpl", impl, rule)
 	r.KeyOf = keyOf
+	noRe := impl.re == nil
+	// a capture request answered without a pattern is a broken tie, never a failing input
+	r.KindOf = func(d *hx.Disagreement) string {
+		if d.Impl == "no-pattern-literal" {
+			return "tie-broken"
+		}
+		return ""
+	}
 	r.Res.Extra["pattern"] = pat
 	r.Res.Extra["pattern_source"] = file
 	if r.HandleReplay() {
 		return
 	}
 	r.RunCorpus()
-	g := &gen{r: r.Rng}
+	g := &gen{r: r.Rng, noRe: noRe}
+	if noRe {
+		r.Add(hx.Case{Lines: []string{"case tmpl str", "tmpl re " + tokS("${{env:A}}")}, Domain: true, Nontrivial: true, Tags: []string{"string", "no-pattern-literal"}})
+	}
 	legacy := os.Getenv("VERIF_C16_LEGACY") == "1" // compare the pinned-commit model instead (manual validation of `…Legacy`)
 
 	nStr, nDoc, maxLen := r.N(20000), r.N(4000), 3
@@ -58,7 +69,13 @@ func runC16(f *hx.Flags) {
 		op = "tmpl relegacy "
 	}
 	n := 0
+	if noRe {
+		maxLen = 0 // the spliced strings only compare captures
+	}
 	allStrings(maxLen, func(x string) {
+		if noRe {
+			return
+		}
 		for _, s := range spliced(x) {
 			r.Add(hx.Case{Lines: []string{"case tmpl splice", op + tokS(s)}, Domain: true, Nontrivial: true, Tags: []string{"splice"}})
 			n++
